@@ -7,6 +7,7 @@
 From Coq Require Import ZArith List Bool.
 From FT Require Import Base.Dict Model.Edit Model.EditExec Proofs.EditInv Proofs.EditFrame.
 From FT Require Gen.History_gen Proofs.HistoryGen Props.C02.
+From FT Require Gen.UserActions_gen Proofs.UserActionsTie.
 Import ListNotations.
 Open Scope Z_scope.
 
@@ -76,6 +77,28 @@ Theorem C20_history_is_generated : forall st a dA,
    end).
 Proof. exact FT.Props.C02.C02_edit_machine_uses_generated. Qed.
 
+(* ---- the seven composite user actions this property quantifies over are, in the model, the code
+        translated on every run from the current user_actions/*.py (Gen/UserActions_gen.v, translator
+        harness/translate_user_actions.py, fail closed): the generated definitions equal the hand-written
+        ones the theorems above are about, for all arguments (UserAddNode: on states whose track lookup
+        lists only nodes, which W_book implies). ---- *)
+Theorem C20_user_actions_are_generated :
+  (forall st u v top, FT.Gen.UserActions_gen.gen_user_delete_edge st u v top = user_delete_edge st u v top) /\
+  (forall st u v force top, FT.Gen.UserActions_gen.gen_user_add_edge st u v force top = user_add_edge st u v force top) /\
+  (forall st n1 n2, FT.Gen.UserActions_gen.gen_user_swap st n1 n2 = user_swap st n1 n2) /\
+  (forall st n new, FT.Gen.UserActions_gen.gen_user_update_attrs st n new = user_update_attrs st n new) /\
+  (forall st n px top, FT.Gen.UserActions_gen.gen_user_delete_node st n px top = user_delete_node st n px top) /\
+  (forall st n a px force top, W_book st ->
+     FT.Gen.UserActions_gen.gen_user_add_node st n a px force top = user_add_node st n a px force top) /\
+  (forall st nv groups T force, FT.Gen.UserActions_gen.gen_user_update_seg st nv groups T force = user_update_seg st nv groups T force).
+Proof.
+  split; [exact FT.Proofs.UserActionsTie.gen_user_delete_edge_eq|]. split; [exact FT.Proofs.UserActionsTie.gen_user_add_edge_eq|].
+  split; [exact FT.Proofs.UserActionsTie.gen_user_swap_eq|]. split; [exact FT.Proofs.UserActionsTie.gen_user_update_attrs_eq|].
+  split; [exact FT.Proofs.UserActionsTie.gen_user_delete_node_eq|].
+  split; [intros st n a px force top WB; exact (FT.Proofs.UserActionsTie.gen_user_add_node_eq st n a px force top (FT.Proofs.UserActionsTie.W_book_book_nodes st WB))|].
+  exact FT.Proofs.UserActionsTie.gen_user_update_seg_eq.
+Qed.
+
 Example C20_nonvacuous :
   let '(s1, (c1, _)) := step ex_state (OAddEdge 1 2 false) in
   let '(s2, (c2, _)) := step s1 (OAddEdge 2 1 false) in
@@ -91,3 +114,4 @@ Print Assumptions C20_step.
 Print Assumptions C20_run.
 Print Assumptions C20_nested_silent.
 Print Assumptions C20_history_is_generated.
+Print Assumptions C20_user_actions_are_generated.
